@@ -426,7 +426,7 @@ func exec(c Case) (v ev.Verdict) {
 		}
 		// versions in the result are canonical
 		for n, r := range res {
-			if !semver.IsValid(r.Version) || project.CleanPath(r.Path) != r.Path {
+			if !semver.IsValid(r.Version) || mvssim.CleanPath(r.Path) != r.Path {
 				return ev.Failf("malformed-requirement", "%s: result requirement %q = %+v", where, n, r)
 			}
 		}
